@@ -7,6 +7,7 @@ stdin : {"dir": <scratch dir>, "cases": [case, ...]}
           "events": [{"notes": [[pitch, vel, len_ticks], ...], "dur": ticks, "shape": "tuple"|"scalar"}, ...]}
        | {"kind": "device", "ops": [["t", n] | ["on", note, vel, ch] | ["off", note, ch]], "file_tpb": M|null}
        | {"kind": "foreign", "tpb": N, "type": 0|1, "tracks": [[[delta, kind, ...], ...], ...]}
+       | {"kind": "history", ...}   (see run_history: long-lived reader objects across rewrites of their files)
 stdout: {"cases": [{"file": {"tpb":..,"tracks":[[[delta, kind, ...]]]}, "read": {...}|{"raise": cls}, "write_error": cls|null}]}
 Durations/gates are given in ticks by the harness and converted to beats (floats) here, as a user would."""
 import sys, json, os
@@ -34,9 +35,12 @@ def seq_to_list(p):
     return [tuple(v) if isinstance(v, (tuple, list)) else v for v in s]
 
 
-def do_read(path):
+def do_read(path, dev=None, quantize=None):
+    """read() through a fresh reader object, or through the given (long-lived) one"""
     try:
-        d = MidiFileInputDevice(path).read()
+        if dev is None:
+            dev = MidiFileInputDevice(path)
+        d = dev.read() if quantize is None else dev.read(quantize=quantize)
         out = {}
         for k in (iso.EVENT_NOTE, iso.EVENT_AMPLITUDE, iso.EVENT_GATE, iso.EVENT_DURATION):
             out[k] = [{"t": plain(v)} if isinstance(v, tuple) else plain(v) for v in seq_to_list(d[k])]
@@ -171,6 +175,56 @@ def build_foreign(case, path):
     mf.save(path)
 
 
+def run_history(case, d, tag):
+    """one or more paths, ONE reader object per path created before anything is written and used for every read of
+    that path, while the files are rewritten (isobar's writers or mido), removed and read with several quantize values.
+    case = {"kind": "history", "paths": k, "steps": [["foreign"|"events"|"device", p, subcase] | ["remove", p] | ["read", p, quantize|null]]}
+    -> {"steps": [{"write_error":..,"file":..} | {"file": parse now | null, "read": .., "fresh": ..}]}"""
+    paths = [os.path.join(d, "h%s_%d.mid" % (tag, k)) for k in range(case["paths"])]
+    readers = [MidiFileInputDevice(pth) for pth in paths]
+    out = []
+    try:
+        for st in case["steps"]:
+            kind, p = st[0], st[1]
+            path = paths[p]
+            if kind == "read":
+                r = {"file": None}
+                if os.path.exists(path):
+                    try:
+                        r["file"] = parse(path)
+                    except Exception as e:
+                        r["file"] = {"error": type(e).__name__}
+                r["read"] = do_read(path, readers[p], st[2])
+                r["fresh"] = do_read(path, None, st[2])
+                out.append(r)
+            elif kind == "remove":
+                try:
+                    os.unlink(path)
+                except OSError:
+                    pass
+                out.append({})
+            else:
+                r = {"write_error": None, "file": None}
+                try:
+                    if kind == "events":
+                        write_events(st[2], path)
+                    elif kind == "device":
+                        write_device(st[2], path)
+                    else:
+                        build_foreign(st[2], path)
+                    r["file"] = parse(path)
+                except Exception as e:
+                    r["write_error"] = type(e).__name__ + ": " + str(e)[:200]
+                out.append(r)
+    finally:
+        for pth in paths:
+            try:
+                os.unlink(pth)
+            except OSError:
+                pass
+    return {"steps": out}
+
+
 def main():
     req = json.load(sys.stdin)
     os.makedirs(req["dir"], exist_ok=True)
@@ -178,6 +232,12 @@ def main():
     for i, case in enumerate(req["cases"]):
         path = os.path.join(req["dir"], "c%d_%d.mid" % (os.getpid(), i))
         r = {"write_error": None, "file": None, "read": None}
+        if case["kind"] == "history":
+            try:
+                out.append(run_history(case, req["dir"], "%d_%d" % (os.getpid(), i)))
+            except Exception as e:
+                out.append({"error": type(e).__name__ + ": " + str(e)[:200]})
+            continue
         try:
             if case["kind"] == "events":
                 write_events(case, path)
